@@ -261,3 +261,176 @@ def u_erank(U):
         U.post('boundary-term', p, b == T.d1(arr[0]) + T.d1(arr[d - 1]), axioms=ex.axioms)
         U.post('defining-quadratic', list(p.pc), M.to_real(a) * x * x + M.to_real(b) * x == M.to_real(sz), qf=True)
         U.post('non-negative-root', list(p.pc), x >= 0, qf=True)
+
+
+# ----------------------------------------------------------------------------------------------
+# scaling lemma: if R[0] = c * A[0] and R[k] = A[k] for k >= 1 then chain(R, i, k) = c * chain(A, i, k)
+
+AXS = T.axioms('shape', 'mulI', 'core', 'smul', 'chain', 'block')
+
+
+def scaled_chain_lemma(U, name, ctx, R, A, c, ix, d, axioms):
+    """R is A with ONE core multiplied by c (which core is read off the path: the code may scale any of them - the denoted
+    tensor is the same).  Lemma by induction: chain(R, i, k) = chain(A, i, k) before that core and c * chain(A, i, k) from it on."""
+    from ttvc.symex import quick_unsat
+    m = None
+    for cand in (z3.IntVal(0), d - 1):
+        if quick_unsat(list(axioms) + list(ctx) + [z3.Not(R[cand] == T.cscale(c, A[cand]))]):
+            m = cand
+            break
+    if m is None:
+        U.post(f'exactly-one-core-is-scaled({name})', ctx, False, axioms=axioms, mode='ematch')
+        m = z3.IntVal(0)
+    kk = z3.Int('kk')
+    P = lambda k: T.chain(R, ix, k) == z3.If(k >= m, T.smul(c, T.chain(A, ix, k)), T.chain(A, ix, k))
+    U.lemma(f'chain-of-the-scaled-tensor-is-the-scaled-chain({name}).base', ctx, P(z3.IntVal(0)), axioms=axioms, mode='ematch', kind='lemma-base')
+    U.lemma(f'chain-of-the-scaled-tensor-is-the-scaled-chain({name}).step', ctx + [kk >= 1, kk < d, P(kk - 1)], P(kk), axioms=axioms,
+            mode='ematch', kind='lemma-step')
+    return z3.ForAll([kk], z3.Implies(z3.And(0 <= kk, kk < d), P(kk)), patterns=[T.chain(R, ix, kk)])
+
+
+def _mul_num_unit(U, num_first):
+    fn = U.func('act_two', 'mul')
+    ex = U.executor(fn, axioms=AXS)
+    ex.mode = 'ematch'
+    st = U.state()
+    Y, A, d = S.tt_param(st, 'Yt')
+    c = z3.Real('c')
+    st.vars.update(Y1=c if num_first else Y, Y2=Y if num_first else c)
+    res = U.run(ex, st, pre=[T.wf(A, d)])
+    U.cover('precondition-satisfiable', U.pre, axioms=AXS)
+    ix = z3.Const('ix', T.IDX)
+    tt = z3.Int('tt')
+    for p, o in res:
+        if o.kind != 'return':
+            U.post('no-exception', p, False, axioms=AXS, mode='ematch')
+            continue
+        Rs = p.deref(o.value)
+        R = Rs.arr
+        U.post('fresh-result-and-argument-untouched', p, z3.BoolVal(isinstance(o.value, VRef) and o.value.oid != Y.oid and p.heap[Y.oid].arr is A))
+        U.post('same-length', p, Rs.n == d, axioms=AXS, mode='ematch')
+        U.post('same-core-shapes', p, z3.Implies(z3.And(0 <= tt, tt < d), z3.And(T.d0(R[tt]) == T.d0(A[tt]), T.d1(R[tt]) == T.d1(A[tt]),
+                                                                               T.d2(R[tt]) == T.d2(A[tt]))), axioms=AXS, mode='ematch')
+        ctx = list(p.pc) + [T.index_ok(ix, A, d)]
+        lem = scaled_chain_lemma(U, 'mul', ctx, R, A, c, ix, d, AXS)
+        cs = lemma_chain_shape(U, 'Y', A, ix, d, ctx, AXS)
+        U.post('value-is-the-number-times-the-entry', ctx + [lem, cs], val(R, ix, d) == c * val(A, ix, d), axioms=AXS, mode='ematch')
+        U.canary('canary-value-unchanged', ctx + [lem, cs], val(R, ix, d) == val(A, ix, d), axioms=AXS)
+
+
+@unit('act_two.mul.num_tt', props=('C01',))
+def u_mul_nt(U):
+    _mul_num_unit(U, True)
+
+
+@unit('act_two.mul.tt_num', props=('C01',))
+def u_mul_tn(U):
+    _mul_num_unit(U, False)
+
+
+# ----------------------------------------------------------------------------------------------
+# call-site contract of add (tensor + tensor), proved by unit act_two.add.tt_tt
+
+def call_add(ex, st, args, kwargs, node):
+    Y1, Y2 = st.deref(args[0]), st.deref(args[1])
+    if not (isinstance(Y1, VSeq) and isinstance(Y2, VSeq) and Y1.tag == 'core' and Y2.tag == 'core'):
+        raise M.Unsupported('add: only the tensor + tensor case has a call-site contract')
+    d = Y1.n
+    ex.oblige(st, 'call-pre', 'add: two well-formed tensors of the same shape',
+              z3.And(Y2.n == d, T.wf(Y1.arr, d), T.wf(Y2.arr, d), same_shape(Y1.arr, Y2.arr, d)), node)
+    R = ex.fresh('Radd', T.TT)
+    ixq = z3.Const('ix!q', T.IDX)
+    t = z3.Int('t!add')
+    st.assume(T.wf(R, d),
+              z3.ForAll([t], z3.Implies(z3.And(0 <= t, t < d), T.d1(R[t]) == T.d1(Y1.arr[t])), patterns=[R[t]]),
+              z3.ForAll([t], z3.Implies(z3.And(1 <= t, t < d), T.d0(R[t]) == T.d0(Y1.arr[t]) + T.d0(Y2.arr[t])), patterns=[R[t]]),
+              z3.ForAll([ixq], z3.Implies(T.index_ok(ixq, Y1.arr, d),
+                                          T.chain(R, ixq, d - 1) == T.madd(T.chain(Y1.arr, ixq, d - 1), T.chain(Y2.arr, ixq, d - 1))),
+                        patterns=[T.chain(R, ixq, d - 1)]))
+    return st.alloc(VSeq(R, d, M.mk_core, 'core'))
+
+
+M.CALLEES['act_two.add'] = call_add
+
+
+@unit('act_two.sub.tt_tt', props=('C01',))
+def u_sub(U):
+    fn = U.func('act_two', 'sub')
+    ex = U.executor(fn, axioms=AXS)
+    ex.mode = 'ematch'
+    st = U.state()
+    Y1, A1, d = S.tt_param(st, 'Y1', z3.Int('d'))
+    Y2, A2, _ = S.tt_param(st, 'Y2', d)
+    st.vars.update(Y1=Y1, Y2=Y2)
+    res = U.run(ex, st, pre=[T.wf(A1, d), T.wf(A2, d), same_shape(A1, A2, d)])
+    U.cover('precondition-satisfiable', U.pre, axioms=AXS)
+    ix = z3.Const('ix', T.IDX)
+    for p, o in res:
+        if o.kind != 'return':
+            U.post('no-exception', p, False, axioms=AXS, mode='ematch')
+            continue
+        Rs = p.deref(o.value)
+        R = Rs.arr
+        U.post('arguments-untouched', p, z3.BoolVal(p.heap[Y1.oid].arr is A1 and p.heap[Y2.oid].arr is A2))
+        U.post('well-formed-same-shape', p, z3.And(Rs.n == d, T.wf(R, d)), axioms=AXS, mode='ematch')
+        # the negated copy of Y2 that is handed to add
+        N = p.deref(p.vars['Y2']).arr
+        ctx = list(p.pc) + [T.index_ok(ix, A1, d)]
+        lem = scaled_chain_lemma(U, 'sub', ctx, N, A2, z3.RealVal(-1), ix, d, AXS)
+        cs1 = lemma_chain_shape(U, 'Y1', A1, ix, d, ctx, AXS)
+        cs2 = lemma_chain_shape(U, 'Y2', A2, ix, d, ctx, AXS)
+        U.post('value-is-the-difference', ctx + [lem, cs1, cs2], val(R, ix, d) == val(A1, ix, d) - val(A2, ix, d), axioms=AXS, mode='ematch')
+        U.canary('canary-value-is-the-sum', ctx + [lem, cs1, cs2], val(R, ix, d) == val(A1, ix, d) + val(A2, ix, d), axioms=AXS)
+
+
+# ----------------------------------------------------------------------------------------------
+# act_two.outer: concatenation of the two core lists; value = product of the two values
+
+@unit('act_two.outer', props=('C01',))
+def u_outer(U):
+    fn = U.func('act_two', 'outer')
+    ex = U.executor(fn, axioms=AXS)
+    ex.mode = 'ematch'
+    st = U.state()
+    Y1, A1, d1_ = S.tt_param(st, 'Y1', z3.Int('d1'))
+    Y2, A2, d2_ = S.tt_param(st, 'Y2', z3.Int('d2'))
+    st.vars.update(Y1=Y1, Y2=Y2)
+    res = U.run(ex, st, pre=[T.wf(A1, d1_), T.wf(A2, d2_)])
+    U.cover('precondition-satisfiable', U.pre, axioms=AXS)
+    ix = z3.Const('ix', T.IDX)       # multi-index of the result: first d1 entries for Y1, the rest for Y2
+    jx = z3.Const('jx', T.IDX)       # its tail, re-indexed from 0
+    t, kk = z3.Int('t!o'), z3.Int('kk')
+    for p, o in res:
+        if o.kind != 'return':
+            U.post('no-exception', p, False, axioms=AXS, mode='ematch')
+            continue
+        Rs = p.deref(o.value)
+        R = Rs.arr
+        d = d1_ + d2_
+        U.post('fresh-result-and-arguments-untouched', p,
+               z3.BoolVal(isinstance(o.value, VRef) and o.value.oid not in (Y1.oid, Y2.oid) and p.heap[Y1.oid].arr is A1 and p.heap[Y2.oid].arr is A2))
+        U.post('length-is-the-sum', p, Rs.n == d, axioms=AXS, mode='ematch')
+        U.post('cores-of-the-first-then-of-the-second', p,
+               z3.And(z3.Implies(z3.And(0 <= t, t < d1_), R[t] == A1[t]), z3.Implies(z3.And(d1_ <= t, t < d), R[t] == A2[t - d1_])),
+               axioms=AXS, mode='ematch')
+        U.post('well-formed', p, T.wf(R, d), axioms=AXS, mode='ematch')
+        ctx = list(p.pc) + [T.index_ok(ix, R, d), z3.ForAll([t], jx[t] == ix[t + d1_], patterns=[jx[t]]),
+                            z3.ForAll([t], z3.Implies(z3.And(0 <= t, t < d1_), R[t] == A1[t]), patterns=[R[t]]),
+                            z3.ForAll([t], z3.Implies(z3.And(d1_ <= t, t < d), R[t] == A2[t - d1_]), patterns=[R[t]])]
+        cs1 = lemma_chain_shape(U, 'Y1', A1, ix, d1_, ctx, AXS)
+        cs2 = lemma_chain_shape(U, 'Y2', A2, jx, d2_, ctx, AXS)
+        # part 1 (k < d1): the chain of the result is the chain of Y1
+        P1 = lambda k: T.chain(R, ix, k) == T.chain(A1, ix, k)
+        U.lemma('first-part-of-the-chain-is-that-of-Y1.base', ctx, P1(z3.IntVal(0)), axioms=AXS, mode='ematch', kind='lemma-base')
+        U.lemma('first-part-of-the-chain-is-that-of-Y1.step', ctx + [kk >= 1, kk < d1_, P1(kk - 1)], P1(kk), axioms=AXS, mode='ematch', kind='lemma-step')
+        v1 = val(A1, ix, d1_)
+        # part 2 (k = d1 + m): chain(R, ix, d1 + m) = val(Y1, i) * chain(Y2, j, m)
+        m_ = z3.Int('m')
+        P2 = lambda m: T.chain(R, ix, d1_ + m) == T.smul(v1, T.chain(A2, jx, m))
+        U.lemma('second-part-is-val(Y1)-times-the-chain-of-Y2.base', ctx + [cs1, cs2, P1(d1_ - 1)], P2(z3.IntVal(0)), axioms=AXS, mode='ematch',
+                kind='lemma-base')
+        U.lemma('second-part-is-val(Y1)-times-the-chain-of-Y2.step', ctx + [cs1, cs2, m_ >= 1, m_ < d2_, P2(m_ - 1)], P2(m_), axioms=AXS,
+                mode='ematch', kind='lemma-step')
+        U.post('value-is-the-product-of-the-two-values', ctx + [cs1, cs2, P2(d2_ - 1)],
+               val(R, ix, d) == v1 * val(A2, jx, d2_), axioms=AXS, mode='ematch')
+        U.canary('canary-value-is-that-of-Y2', ctx + [cs1, cs2, P2(d2_ - 1)], val(R, ix, d) == val(A2, jx, d2_), axioms=AXS)
